@@ -11,7 +11,7 @@ SIMP = "patronus/src/expr/simplify.rs"
 
 BUILDERS = ["add_expr", "and", "or", "xor", "shift_left", "arithmetic_shift_right", "shift_right", "add", "sub", "mul",
             "equal", "ite", "not", "negate", "concat", "slice", "zero_extend", "sign_extend", "bv_lit", "bit_vec_val",
-            "zero", "ones", "get_true", "get_false"]
+            "zero", "one", "ones", "get_true", "get_false"]
 
 RULES = ["find_lits_commutative", "find_one_concat", "simplify_ite", "simplify_bv_equal", "simplify_bv_or", "simplify_bv_xor",
          "simplify_bv_greater_equal", "simplify_bv_not", "simplify_bv_zero_ext", "simplify_bv_sign_ext", "simplify_bv_concat",
